@@ -204,6 +204,9 @@ func runC12(c *core.Ctx) {
 	for _, n := range []int{79, 80, 81, 200, 4096} {
 		strs = append(strs, strings.Repeat("r", n))
 	}
+	// strings that read as markup to an HTML or template layer: complete tags, character references, comments, template actions
+	strs = append(strs, "next=<dashboard>", "<b>bold</b> move", "tom&amp;jerry", "x&lt;y", "5&#43;5", "&#x26;", "&quot;q&quot;", "&apos;", "&nbsp;", "&amp;amp;", "<!-- c -->x", "<![CDATA[x]]>", "</form><form action=x>",
+		"<script>x</script>", "<a href='x'>", "{{.RelayState}}", "{{`x`}}", "<?xml x?>", "a<b>c", "<>", "</>", "<br/>", "&#0;", "&#xD;&#xA;", "\\u003c", "%3Cb%3E", "javascript:alert(1)")
 	spCache := map[string]*saml.ServiceProvider{}
 	getSP := func(cf c12Cfg) (*saml.ServiceProvider, string, string) {
 		sso, slo := c12URLs(cf)
